@@ -8,7 +8,10 @@ solution.  The exported walks are replayed on the real code (H2O, CH4, H2CO, NH3
 rows converge at different iterations); all unflagged solves of the same row at the same
 geometry must agree in energy, forces, charges and occupied orbital energies within K*max(eps_i, eps_j)
 (K solver-aware, calibrated).  Every solve is also a C03 instance (residual predicates there).
-Not decided: (b) monotone approach to the limit under tightening (reported as observation only)."""
+(b) is monitored: along a ladder of thresholds 1e-4 .. 1e-10 (seven solver families, cold starts) the deviation of energy and
+forces from the common limit never grows beyond max(previous deviation, K * new threshold).  This rule is what "monotone"
+can mean for iterative solvers that stop at the first iterate inside the threshold; strict monotonicity of every digit is
+not demanded."""
 
 import os
 
@@ -18,6 +21,40 @@ from harness import common, tlc
 PROP = "C04"
 K = {"Etot": 50.0, "force": 2.0e4, "q": 5.0e3, "e_occ": 1.0e4}
 FLOOR = {"Etot": 1e-9, "force": 1e-7, "q": 1e-8, "e_occ": 1e-8}
+
+
+LADDER = (1.0e-4, 1.0e-6, 1.0e-8, 1.0e-10)
+
+
+def ladder(case):
+    """One molecule, one solver family, thresholds tightened step by step from a cold start: deviation of energy / forces from
+    the common limit (adaptive mixing at 1e-12)."""
+    import torch
+
+    from drivers import mdlib, scf_driver
+    from seqm.ElectronicStructure import Electronic_Structure
+
+    mdlib.use_stub(False)
+    common.quiet_stdio()
+
+    def solve(cfg, eps):
+        p = mdlib.seqm_params(scf_eps=eps, **cfg)
+        mol = scf_driver.make([case["mol"]], p, displace=0.06)
+        mol.verbose = False
+        es = Electronic_Structure(p)
+        es(mol)
+        return float(mol.Etot[0]), mol.force[0].detach().clone(), bool(es.notconverged.any())
+
+    E0, F0, _ = solve(dict(scf_converger=[1]), 1.0e-12)
+    out = []
+    for eps in LADDER:
+        cfg = dict(case["cfg"])
+        if cfg.get("sp2"):
+            # purification threshold tied to the SCF threshold, as a user would: kept at the floor or allowed to go below it
+            cfg["sp2"] = [True, eps if cfg["sp2"][1] == "tied" else max(eps * 10, 1e-7)]
+        E, F, flag = solve(cfg, eps)
+        out.append({"eps": eps, "dE": abs(E - E0), "dF": float((F - F0).abs().max()), "flag": flag})
+    return out
 
 
 def main(tier):
@@ -76,13 +113,34 @@ def main(tier):
                     if d > bound:
                         rep.violation("result_depends_on_solver_path", {"mol": mol, "geometry": gi, "output": name, "difference": d, "bound": bound, "solve": {k: rec[k] for k in ("cfg", "start", "eps")},
                                                                         "reference": {k: ref[k] for k in ("cfg", "start", "eps")}}, output=name, cfg=rec["cfg"], start=rec["start"])
+        # ---- (b) monitored: tightening the threshold moves the result toward the common limit ----------------------------------
+        fams = {"mix03": dict(scf_converger=[0, 0.3]), "adapt": dict(scf_converger=[1]), "pulay": dict(scf_converger=[2]), "adapt_sp2": dict(scf_converger=[1], sp2=[True, 1e-5]), "mix_sp2_tied": dict(scf_converger=[0, 0.3], sp2=[True, "tied"]),
+                "uhf_adapt": dict(scf_converger=[1], UHF=True), "ksa": dict(scf_converger=[3, {"max_rank": 3, "err_threshold": 0.0, "T_el": 1500.0}])}
+        lcases = [dict(mol=m, fam=f, cfg=c) for m in (("h2o", "h2co") if tier == "quick" else ("h2o", "h2co", "ch4", "nh3", "c2h4")) for f, c in fams.items()]
+        lres = common.run_forked(lcases, ladder, timeout=900)
+        ladder_worst = 0.0
+        for c, rr in zip(lcases, lres):
+            if not rr.get("ok"):
+                rep.machinery("threshold ladder failed: " + str(rr.get("error")))
+                continue
+            ser = rr["result"]
+            for a, b in zip(ser, ser[1:]):
+                if a["flag"] or b["flag"]:
+                    continue
+                for name, kk, fl in (("dE", K["Etot"], FLOOR["Etot"]), ("dF", K["force"] * (5.0 if c["fam"] == "ksa" else 1.0), FLOOR["force"])):
+                    bound = max(a[name] * (1.0 + 1.0e-6) + 1.0e-12, kk * b["eps"] + fl)       # no farther from the limit than before, or already inside the band of the new threshold
+                    ladder_worst = max(ladder_worst, b[name] / bound)
+                    if b[name] > bound:
+                        rep.violation("tightening_moves_result_away_from_limit", {"mol": c["mol"], "solver": c["fam"], "output": name, "thresholds": [a["eps"], b["eps"]], "deviation": [a[name], b[name]], "bound": bound, "series": ser},
+                                      output="ladder_" + name, cfg=c["fam"], start="cold")
         cov = {
+            "threshold_ladders": len(lcases), "ladder_worst_deviation_over_bound": ladder_worst,
             "states": r.distinct + g.distinct, "transitions": r.generated + g.generated, "traces_validated_against_impl": len(cases), "solves": n_solves, "class_comparisons": n_pairs,
             "samples": [{"mol": c["mol"], "walk": c["walk"]} for c in cases[:2]], "calibration_largest_difference_over_bound": worst, "walks_exported": len(walks),
             "evaluations": len(cases), "distinct_nontrivial": len({common.sha([c["mol"], c["walk"]]) for c in cases if any(s["start"] != "cold" for s in c["walk"])}),
             "rule": "walks of length 2 over 2 geometries x 3 start densities x 14 solver configurations exported by TLC, sampled by VERIF_SEED plus one cold+prev walk per configuration; non-trivial = some solve restarts from a previous or perturbed density", "exhaustive": False,
             "bounds": {"K": K, "FLOOR": FLOOR},
         }
-        return rep.finish(cov, assumptions=["premise of the property: single stable closed-shell solution (small near-equilibrium molecules)", "constants K calibrated, not derived", "monotone approach under tightening not decided"])
+        return rep.finish(cov, assumptions=["premise of the property: single stable closed-shell solution (small near-equilibrium molecules)", "constants K calibrated, not derived", "monotone approach under tightening: monitored with the max(previous, K*eps) rule"])
     finally:
         common.rm(scratch)
